@@ -526,7 +526,9 @@ class Engine:
     def call_fn(s, fn, args, env=None):
         for pat, nat in s.intercepts:
             if pat.search(fn.name):
-                return nat(s, fn, args, env)
+                r = nat(s, fn, args, env)
+                if r is not NotImplemented:
+                    return r
         code = fn.code
         if code is None:
             code = Compiler(s, fn).compile()
